@@ -1327,6 +1327,95 @@ theorem C03_bad_reference_element_detected {F} (env : Env F) (hcfg : env.lex.cri
     ElemRdS env (.entity tg) { tok := 35 :: ds, before := before, after := after, v := .atom .unset } .warning :=
   ElemRdS.ref_bad env hcfg hagg tg ds hne hds hhi hbad before after hb ha
 
+/-- **a typed select value with a foreign keyword, attribute level**: see `attr_select_foreign`; as a `ParamRd` for the
+    pseudo-parameter `KEYWORD blanks ( value` (the value's own `)` is the delimiter the reader rests at) -/
+theorem C03_foreign_select_keyword_detected {F} (env : Env F) (strict : Bool) (a : AttrD) (n : String)
+    (hty : a.ty = .one (.select n)) (hder : a.derived = false) (hred : a.redefining = false)
+    (sd : SelectD) (hsd : env.dict.select? n = some sd)
+    (n0 : Byte) (ns : List Byte) (hn0 : isAlpha n0 = true) (hns : ns.all selc = true)
+    (hfind : sd.members.find? (fun x => x.name == bytesToString (upperBytes (n0 :: ns)) && !x.ty.isEntity) = none)
+    (sA : List Byte) (hsA : sA.all isSpace = true)
+    (j0 : Byte) (js : List Byte) (hj0s : isSpace j0 = false) (hj047 : j0 ≠ 47)
+    (hj : ∀ b ∈ j0 :: js, delimAt env.lex attrDelims b = false)
+    (hsemi : env.lex.criStopsAtSemicolon = true → ∀ b ∈ j0 :: js, b ≠ 59) (before : List Byte) (hb : Seps before) :
+    ParamRd env strict { a := a, v := .one (.atom .unset), tok := n0 :: (ns ++ (sA ++ 40 :: (j0 :: js))),
+                         before := before, after := [] } .warning := by
+  obtain ⟨hn0s, hn047, _, _, _, _, _, _, hn092⟩ := alpha_facts hn0
+  refine ⟨hred, ⟨n0, _, rfl, hn0s, hn047, hn092⟩, hb, fun l sk d rest hd => ⟨sk, Or.inl rfl, ?_⟩⟩
+  have h := attr_select_foreign env strict a n hty hder sd hsd n0 ns hn0 hns hfind sA hsA j0 js hj0s hj047 hj hsemi l sk d rest hd
+  simpa [List.append_assoc] using h
+
+/-- a parameter read with a severity at or below USERMSG makes the accumulated severity at least that severe -/
+theorem accum_le_mem (sevs : List Sev) (sv : Sev) (hm : sv ∈ sevs) (hb : sv.toInt ≤ Sev.usermsg.toInt) :
+    ∀ e : Sev, (accum e sevs).toInt ≤ sv.toInt := by
+  have mono : ∀ (t : List Sev) (e : Sev), (accum e t).toInt ≤ e.toInt := by
+    intro t
+    induction t with
+    | nil => intro e; exact Int.le_refl _
+    | cons x t ih =>
+      intro e
+      simp only [accum, List.foldl_cons] at ih ⊢
+      refine Int.le_trans (ih _) ?_
+      split
+      · exact greater_le_left _ _
+      · exact Int.le_refl _
+  induction sevs with
+  | nil => cases hm
+  | cons x t ih =>
+    intro e
+    simp only [accum, List.foldl_cons]
+    rcases List.mem_cons.mp hm with rfl | hm'
+    · refine Int.le_trans (mono t _) ?_
+      rw [if_pos hb]
+      exact greater_le_right _ _
+    · exact ih hm' _
+
+theorem renderParams_snoc' {F} (ps0 : List (Param F)) (ex : Param F) :
+    renderParams (ps0 ++ [ex]) =
+      (match ps0 with | [] => [] | _ => renderOpen ps0 ++ [44]) ++ (ex.before ++ (ex.tok ++ (ex.after ++ [41]))) := by
+  cases ps0 with
+  | nil => simp [renderParams]
+  | cons p t => rw [renderParams_snoc (p :: t) (by simp) ex]; simp
+
+/-- **a typed select value with a foreign keyword, record level** (`Flawed` derived): a record whose last parameter is
+    `KEYWORD blanks ( value )` for a select attribute, the keyword naming no non-entity member of the select, `value` without
+    `,` `)` `;` - the parameters before it each read where they stand with a known severity - is read to WARNING or worse:
+    the attribute reader rests at the value's own `)`, the instance reader takes it for the end of the list (every attribute
+    has its value by then), the `;` test fails and the record is resynchronised from its start.  By
+    `C03_violation_confined_partial` the file fails and the other records keep their outcome.  (A foreign keyword at an
+    earlier position ends the list early: the same argument with `readAttrs_params_short`; not stated.) -/
+theorem C03_foreign_select_keyword_flawed {F} (env : Env F) (strict : Bool)
+    (x : Step F) (hlex : x.r.Lex) (hg : Seps x.g) (hscan : ∀ q ∈ x.r.ps, ParamScan q)
+    (qs : List (Param F × Sev)) (hok : ∀ q ∈ qs, ParamRd env strict q.1 q.2)
+    (pseudo sel : Param F) (hpr : ParamRd env strict pseudo .warning) (hpa : pseudo.after = [])
+    (hsa : sel.a = pseudo.a) (hsb : sel.before = pseudo.before) (hst : sel.tok = pseudo.tok ++ [41])
+    (hps : x.r.ps = qs.map (·.1) ++ [sel])
+    (e : EntityD) (hent : env.dict.entity? x.r.name = some e) (hattrs : e.attrs = qs.map (·.1.a) ++ [pseudo.a])
+    (hsev : x.sev = accum .null (qs.map (·.2) ++ [.warning]))
+    (hout : x.out = { id := x.r.id, parts := [{ name := x.r.name, vals := qs.map (·.1.v) ++ [pseudo.v] }], state := .incomplete }) :
+    Flawed env strict x := by
+  refine ⟨hlex, hg, hscan, ?_, e, qs.map (·.1.v) ++ [pseudo.v], hent, hout, ?_⟩
+  · rw [hsev]
+    exact accum_le_mem _ .warning (by simp) (by decide) _
+  · intro L rest
+    obtain ⟨sk', hsk, h⟩ := instSTEPread_params_sev env strict (qs ++ [(pseudo, .warning)]) (by simp)
+      (by
+        intro q hq
+        rcases List.mem_append.mp hq with hq | hq
+        · exact hok q hq
+        · simp only [List.mem_singleton] at hq; subst hq; exact hpr)
+      L false (sel.after ++ 41 :: x.r.t4 rest)
+    have hsk' : sk' = false := by rcases hsk with h | h <;> exact h
+    subst hsk'
+    refine ⟨G ((40 :: renderParams ((qs ++ [(pseudo, Sev.warning)]).map (·.1))).reverse ++ L) (sel.after ++ 41 :: x.r.t4 rest) false,
+      aaccum (qs ++ [(pseudo, .warning)]), ?_, by rw [readTokenSeparator_skipws]⟩
+    have etext : renderParams x.r.ps ++ x.r.t4 rest =
+        renderParams ((qs ++ [(pseudo, Sev.warning)]).map (·.1)) ++ (sel.after ++ 41 :: x.r.t4 rest) := by
+      rw [hps, List.map_append, List.map_cons, List.map_nil, renderParams_snoc', renderParams_snoc', hsb, hst, hpa]
+      simp [List.append_assoc]
+    rw [hattrs, hsev, etext]
+    simpa [List.map_append] using h
+
 /-- tie: the source keeps what `CheckRemainingInput` reports behind a `$` (C09's repair is in) -/
 theorem C03_source_dollar_keeps_error : Generated.rwLexCfg.dollarKeepsError = true := by decide
 
